@@ -411,32 +411,25 @@ def evaluate__lang(self: XPathFunction, context: ta.ContextType = None) -> bool:
     elif context is None:
         raise self.missing_context()
 
-    if not isinstance(context.item, EtreeElementNode):
-        return False
+    # the xml:lang attribute of the nearest ancestor-or-self element
+    node = context.item if isinstance(context.item, XPathNode) else None
+    while node is not None:
+        if isinstance(node, EtreeElementNode) and XML_LANG in node.value.attrib:
+            lang = node.value.attrib[XML_LANG]
+            if not isinstance(lang, str):
+                return False
+            lang = lang.strip().lower()
+            break
+        node = node.parent
     else:
-        try:
-            attr = context.item.value.attrib[XML_LANG]
-        except KeyError:
-            for e in context.iter_ancestors():
-                if isinstance(e, EtreeElementNode) and XML_LANG in e.value.attrib:
-                    lang = e.value.attrib[XML_LANG]
-                    if not isinstance(lang, str):
-                        return False
-                    break
-            else:
-                return False
-        else:
-            if not isinstance(attr, str):
-                return False
-            lang = attr.strip()
+        return False
 
-        if '-' in lang:
-            lang, _ = lang.split('-')
-
-        value = self[0].evaluate()
-        if not isinstance(value, str):
-            return False
-        return lang.lower() == value.lower()
+    value = self[0].evaluate()
+    if not isinstance(value, str):
+        return False
+    value = value.lower()
+    # the same language or a sublanguage of the argument
+    return lang == value or lang.startswith(value + '-')
 
 
 ###
